@@ -6,7 +6,9 @@ import hashlib, json, os, re, shutil, subprocess, sys, time
 VERIF = os.path.dirname(os.path.dirname(os.path.abspath(__file__)))
 REPO = os.environ.get("VERIF_REPO", "/repo")
 LEAN = os.path.join(VERIF, "lean")
-BUILD = os.path.join(VERIF, ".build")
+ALT = REPO != "/repo"   # developer mode: VERIF_REPO=/tmp/worktree ./check Cxx  (seeded-change testing without touching /repo)
+BUILD = os.path.join(VERIF, ".build", "alt_" + hashlib.sha1(REPO.encode()).hexdigest()[:8]) if ALT else os.path.join(VERIF, ".build")
+OUTDIR = BUILD if ALT else VERIF   # evidence/ and replays/ of an alt-repo run never overwrite the real ones
 ALLOWED_AXIOMS = {"propext", "Classical.choice", "Quot.sound"}
 FORBIDDEN = re.compile(r"\b(sorry|admit|native_decide|implemented_by|bv_decide)\b|^\s*axiom\s|\bunsafe\s|maxHeartbeats\s+0\b", re.M)
 
@@ -303,7 +305,7 @@ def known_findings():
 
 
 def write_replay(pid, kind, payload):
-    d = os.path.join(VERIF, "replays", pid)
+    d = os.path.join(OUTDIR, "replays", pid)
     os.makedirs(d, exist_ok=True)
     body = json.dumps(dict(property=pid, kind=kind, **payload), indent=1, sort_keys=True)
     path = os.path.join(d, hashlib.sha1(body.encode()).hexdigest()[:12] + ".json")
@@ -475,8 +477,8 @@ def main(argv):
             cov["leanchecker"] = lean["leanchecker"]
         ev = {"property_id": pid, "tier": tier, "seed": seed, "level": cfg["level"], "coverage": cov,
               "assumptions": cfg.get("assumptions", []), "wall_s": round(time.time() - t0, 2), "violations": violations}
-        os.makedirs(os.path.join(VERIF, "evidence"), exist_ok=True)
-        with open(os.path.join(VERIF, "evidence", pid + ".json"), "w") as f:
+        os.makedirs(os.path.join(OUTDIR, "evidence"), exist_ok=True)
+        with open(os.path.join(OUTDIR, "evidence", pid + ".json"), "w") as f:
             json.dump(ev, f, indent=1, sort_keys=True)
             f.write("\n")
     log(f"[{pid}] {tier} done in {time.time() - t0:.1f}s exit={exit_code}")
